@@ -54,7 +54,8 @@ def case_strategy(draw):
         frags = []
         for i in range(draw(st.sampled_from([0, 0, 1, 2]))):
             f = draw(st.sampled_from([c10.f_values, c10.f_named, c10.f_neg_default, c10.f_components_of, c10.f_class,
-                                      c10.f_strings, c10.f_param_type, c10.f_param_value, c10.f_keywords]))
+                                      c10.f_strings, c10.f_param_type, c10.f_param_value, c10.f_keywords, c10.f_alphabet_edge,
+                                      c10.f_alphabet_edge]))
             t, c = f(draw, fi * 10 + i)
             if c.startswith("param"):
                 param = True
@@ -91,6 +92,27 @@ def case_strategy(draw):
         files.append(["m%d.asn1" % fi, text])
     opts = list(draw(st.sampled_from(OPTIONSETS)))
     return {"files": files, "flags": opts, "classes": classes, "param": param, "origin": "generated"}
+
+
+def fixed_cases():
+    """a few hand-written modules that sit on table-size edges of the code generator (always run)"""
+    out = []
+    def q(c):
+        return "{0, 0, %d, %d}" % (c >> 8, c & 255)
+    k = 0
+    for kind in ("BMPString", "UniversalString", "IA5String"):
+        for top in (126, 127, 128, 254, 255, 256, 257):
+            if kind == "IA5String" and top > 127:
+                continue
+            text = ("F%d DEFINITIONS AUTOMATIC TAGS ::= BEGIN\n"
+                    "Name ::= %s (FROM (%s..%s | %s..%s))\n"
+                    "Name2 ::= %s (FROM (\"A\"..\"Z\" | \"a\"..\"z\" | %s)) (SIZE(1..8))\n"
+                    "Rec ::= SEQUENCE { a Name, b Name2 OPTIONAL }\nEND\n"
+                    % (k, kind, q(32), q(min(top - 40, 100)), q(top - 30), q(top), kind, q(top)))
+            out.append({"files": [["f%d.asn1" % k, text]], "flags": [], "classes": ["fixed", "fixed.alphabet-top-%d" % top],
+                        "param": False, "origin": "generated"})
+            k += 1
+    return out
 
 
 def corpus_cases():
@@ -404,6 +426,7 @@ def main(argv):
     args = [("gen", chk.seed * 1013 + i, per, chk.pick(20, 30)) for i in range(nslices)]
     csl = max(1, len(corpus) // 6)
     args += [("corpus", corpus[i:i + csl]) for i in range(0, len(corpus), csl)]
+    args.append(("corpus", fixed_cases()))
     results = run_pool(_dispatch, args, W)
     chk.extra_coverage["pool_s"] = round(time.time() - t1, 1)
     chk.extra_coverage["corpus_files"] = len(corpus)
